@@ -110,3 +110,47 @@ pub fn fail_write_slpp(game: Game, comp: Comp, limit: usize) {
 	};
 	let _ = guard(|| ppi::write(FailWriter { limit, written: 0 }, game, Some(&opts)).map_err(|e| format!("{}", e)));
 }
+
+/// A sink that accepts at most `chunk` bytes per call (a pipe, a socket): what arrives must not depend on it.
+pub struct ShortWriter {
+	pub chunk: usize,
+	pub data: Vec<u8>,
+	pub calls: usize,
+}
+
+impl std::io::Write for ShortWriter {
+	fn write(&mut self, buf: &[u8]) -> std::io::Result<usize> {
+		self.calls += 1;
+		// now and then the call is interrupted before anything is accepted
+		if self.calls % 11 == 5 {
+			return Err(std::io::Error::new(std::io::ErrorKind::Interrupted, "interrupted"));
+		}
+		let n = buf.len().min(self.chunk.max(1));
+		self.data.extend_from_slice(&buf[..n]);
+		Ok(n)
+	}
+	fn flush(&mut self) -> std::io::Result<()> {
+		Ok(())
+	}
+}
+
+pub fn write_slp_short(game: &Game, chunk: usize) -> Outcome<Vec<u8>> {
+	guard(|| {
+		let mut w = ShortWriter { chunk, data: vec![], calls: 0 };
+		slippi::write(&mut w, game).map(|_| w.data)
+	})
+}
+
+pub fn write_slpp_short(game: Game, comp: Comp, chunk: usize) -> Outcome<Vec<u8>> {
+	let opts = ppi::ser::Opts {
+		compression: match comp {
+			Comp::None => None,
+			Comp::Lz4 => Some(arrow2::io::ipc::write::Compression::LZ4),
+			Comp::Zstd => Some(arrow2::io::ipc::write::Compression::ZSTD),
+		},
+	};
+	guard(|| {
+		let mut w = ShortWriter { chunk, data: vec![], calls: 0 };
+		ppi::write(&mut w, game, Some(&opts)).map(|_| w.data).map_err(|e| format!("{}", e))
+	})
+}
